@@ -164,6 +164,18 @@ def cases(draw, path, focus=None, family=None):
         if draw(st.booleans()):
             x, y = y, x
         b1, b2, ek = {'named': [], 'xpos': [x], 'kwonly': [], 'xkw': []}, {'named': [], 'xpos': [y], 'kwonly': [], 'xkw': []}, 'lookalike:xpos'
+    # an ignore specification in effect (names, '*', '**'; a single name possibly as a bare string): calls that still differ in a NON-ignored
+    # parameter must keep different keys
+    ignore = None
+    if focus != 'single' and draw(st.integers(0, 3)) == 0:
+        names = list(rest['req']) + [n for n, _ in rest['opt']] + list(rest['kwreq']) + [n for n, _ in rest['kwopt']] + ['*', '**'] + S.XKW[:2] + (['self'] if kind == 'method' else [])
+        # multi-letter names ('func', 'ignored', 'key', 'self') whose LETTERS are parameter names of their own: a bare string must be taken as one name
+        multi = [n for n in S.XKW if len(n) > 1] + (['self'] if kind == 'method' else [])
+        if draw(st.integers(0, 2)) == 0:
+            items = [draw(st.sampled_from(multi))]
+        else:
+            items = draw(st.lists(st.sampled_from(names), min_size=1, max_size=2, unique=True))
+        ignore = {'items': items, 'bare': len(items) == 1 and draw(st.integers(0, 3)) > 0}
     kms = [k for k in KEYMAPS if info_preserving(k, bool(sig['varargs']))]
     if focus in ('varargs', 'single'):
         kms = [k for k in kms if k['flat']]
@@ -173,7 +185,24 @@ def cases(draw, path, focus=None, family=None):
     module = 'safe' if (km['cls'] == 'keymap' and not km['flat']) else draw(st.sampled_from(['std', 'safe']))
     return {'sig': sig, 'kind': kind, 'nfix': nfix, 'fixed': [draw(vals) for _ in range(nfix)], 'pkw': pkw, 'tol': tol, 'deep': deep, 'b1': b1, 'b2': b2, 'edit': ek, 'sibling': sibling,
             'form1': draw(st.integers(0, 255)), 'form2': draw(st.integers(0, 255)), 'keymap': km, 'path': path, 'module': module,
-            'algo': draw(st.sampled_from(['inf', 'lru', 'lfu', 'mru', 'rr'] + H.DISPATCHED))}
+            'algo': draw(st.sampled_from(['inf', 'lru', 'lfu', 'mru', 'rr'] + H.DISPATCHED)), 'ignore': ignore}
+
+
+def strip_ignored(b, ig):
+    """the bound arguments that are NOT selected by the ignore specification (reference selector, independent of klepto)"""
+    out = {}
+    for n, v in b.items():
+        if n == '_a':
+            if '*' in ig:
+                continue
+        elif n == '_k':
+            if '**' in ig:
+                continue
+            v = dict((k, vv) for k, vv in v.items() if k not in ig)
+        elif n in ig:
+            continue
+        out[n] = v
+    return out
 
 
 def strata(tier):
@@ -242,6 +271,18 @@ def run_case(case):
         x, y = S.bound(oracle_fn, ra1, rk1), S.bound(oracle_fn, ra2, rk2)
         if x is None or y is None:
             return [Discrepancy('C10/harness/invalid-call-after-rounding', '%r %r' % (ra1, rk1))], None, classes
+    ign = case.get('ignore')
+    if ign:
+        x, y = strip_ignored(x, ign['items']), strip_ignored(y, ign['items'])
+        ig_value = ign['items'][0] if ign['bare'] else tuple(ign['items'])
+        ig_items = tuple(ign['items'])
+        tkw = dict(tkw, ignore=ig_value)
+        classes.append('ignore_in_effect')
+        if ign['bare']:
+            classes.append('ignore_bare_string')
+    else:
+        ig_value, ig_items = (), ()
+    gkw = dict((k, v) for k, v in tkw.items() if k != 'ignore')
     unequal = not S.bound_equal(x, y)
     twin = (not unequal) and top_level_type_diff(x, y)
     if not unequal and not twin:
@@ -265,9 +306,9 @@ def run_case(case):
             if path in ('fkey', 'call'):
                 H.decorator_class(case['module'], case['algo'])(keymap=km, **tkw)(sib).key(*sa, **sk)
             elif path == 'keygen':
-                klepto.keygen(keymap=km, **tkw)(sib)(*sa, **sk)
+                klepto.keygen(*ig_items, keymap=km, **gkw)(sib)(*sa, **sk)
             else:
-                klepto._keygen(sib, (), *sa, **sk)
+                klepto._keygen(sib, ig_value, *sa, **sk)
         except Exception as e:
             out.append(Discrepancy('C10/%s/sibling-raised/%s' % (path, H.exc_sig(e)), repr(e)))
             return out, None, classes
@@ -286,11 +327,11 @@ def run_case(case):
                                            'f(*%r, **%r) then f(*%r, **%r): second call evaluated %d times and returned %r (own value %r); keys %r / %r' % (
                                                a1, k1, a2, k2, n2 - n1, r2, exp2, key1, key2)))
         elif path == 'keygen':
-            kg = klepto.keygen(keymap=km, **tkw)(target)
+            kg = klepto.keygen(*ig_items, keymap=km, **gkw)(target)
             key1, key2 = kg(*a1, **k1), kg(*a2, **k2)
         else:
-            x1 = klepto._keygen(target, (), *a1, **k1)
-            x2 = klepto._keygen(target, (), *a2, **k2)
+            x1 = klepto._keygen(target, ig_value, *a1, **k1)
+            x2 = klepto._keygen(target, ig_value, *a2, **k2)
             key1, key2 = km(*x1[0], **x1[1]), km(*x2[0], **x2[1])
     except Exception as e:
         out.append(Discrepancy('C10/%s/raised/%s' % (path, H.exc_sig(e)), '%r for %r %r / %r %r' % (e, a1, k1, a2, k2)))
@@ -311,7 +352,7 @@ def run_case(case):
     return out, nt, classes
 
 
-REQUIRED_CLASSES = ['edit:kw_as_pos', 'tol:0', 'tol:1', 'edit:spell_original_default', 'unequal_pair', 'twin_typed', 'edit:twin_swap', 'edit:sibling_default', 'sibling_keyed_first', 'edit:lookalike', 'edit:add_xpos', 'edit:add_xkw', 'nt:xpos', 'nt:xkw', 'nt:kwonly', 'kind:method', 'kind:partial']
+REQUIRED_CLASSES = ['ignore_in_effect', 'ignore_bare_string', 'edit:kw_as_pos', 'tol:0', 'tol:1', 'edit:spell_original_default', 'unequal_pair', 'twin_typed', 'edit:twin_swap', 'edit:sibling_default', 'sibling_keyed_first', 'edit:lookalike', 'edit:add_xpos', 'edit:add_xkw', 'nt:xpos', 'nt:xkw', 'nt:kwonly', 'kind:method', 'kind:partial']
 
 
 def trig_flat_str_unwrap(case, discr):
